@@ -361,12 +361,7 @@ class ProtobufReader(Converter):
                 problem.add_timed_goal(interval=timing, goal=goal)
 
         for tc in msg.trajectory_constraints:
-            constraint = self.convert(tc, problem)
-            if constraint.is_bool_constant():
-                # the original problem simplified this constraint to a constant when it was added
-                problem._trajectory_constraints.append(constraint)
-            else:
-                problem.add_trajectory_constraint(constraint)
+            problem.add_trajectory_constraint(self.convert(tc, problem))
 
         for metric in msg.metrics:
             problem.add_quality_metric(self.convert(metric, problem))
